@@ -786,7 +786,9 @@ def run(c):
         "dynamic parameters only",
         "ModelicaMixin (how F, parameters, inputs and nominals are obtained from a .mo file) is covered by C14/C13, not here",
     ]
-    c.prove()
+    from .translate_c01 import gen_colloc_kernels
+
+    c.prove(extra=gen_colloc_kernels(c))  # + kernels of transcribe() translated from the source
     rng = c.rng
     run_batch(c, [dict(x) for x in CORPUS], rng)
     n_main = c.n(60, 500)
@@ -805,6 +807,20 @@ def run(c):
             inst["history"] = [{} for _ in range(inst["E"])]
         if S.add_own_times(rng, inst):
             own.append(inst)
+    # one member, every parameter dynamic, transcribed twice with changed values: a dynamic parameter
+    # must never be frozen in the cached residual function, also when the ensemble has one member
+    single = []
+    while len(single) < c.n(5, 30):
+        inst = S.gen_instance(rng, kind=rng.choice(["affine", "nonlinear"]))
+        if inst["npar"] == 0 or not inst["eqs"] or len(inst["ts"]) < 2:
+            continue
+        inst["E"] = 1
+        for key in ("pvals", "cin", "history"):
+            inst[key] = inst[key][:1]
+        inst["dyn"] = list(range(inst["npar"]))
+        inst["eqs"][0]["t"].append([S.dy(rng), [["p", 0], ["v", 0]]])
+        inst["again"] = True
+        single.append(inst)
     hist = []
     while len(hist) < c.n(14, 80):
         inst = S.gen_instance(rng, kind=rng.choice(["affine", "nonlinear"]))
@@ -816,7 +832,7 @@ def run(c):
     for inst in sol[: n_solve // 3]:
         S.add_own_times(rng, inst)
     # batches keep the driver input small
-    allinst = insts + own + hist + mo
+    allinst = insts + own + hist + mo + single
     for k in range(0, len(allinst), 40):
         run_batch(c, allinst[k:k + 40], rng)
     run_batch(c, sol, rng, solve=True)
@@ -827,7 +843,9 @@ def run(c):
 
 
 def replay(c, rp):
-    c.prove()
+    from .translate_c01 import gen_colloc_kernels
+
+    c.prove(extra=gen_colloc_kernels(c))  # + kernels of transcribe() translated from the source
     insts = []
     for f in rp.get("failures", []) + rp.get("correspondence_disagreements", []) + rp.get("disagreements", []):
         if f and isinstance(f.get("case"), dict) and "eqs" in f["case"]:
